@@ -3,6 +3,7 @@ mod gen_text;
 mod ops;
 mod ops_access;
 mod ops_chain;
+mod ops_deep;
 mod ops_edit;
 mod ops_order;
 mod ops_path;
@@ -41,6 +42,7 @@ fn main() {
                 out.flush().unwrap();
             }
         }
+        Some("deepchild") => ops_deep::child(&args[2..]),
         Some("gen") => {
             let prop = &args[2];
             let tier = &args[3];
